@@ -137,6 +137,13 @@ pub fn run(ctx: &Ctx) -> i32 {
                         ev.fps.insert(crate::rng::fnv_u64(mask, shape as u64));
                         check_map(&kv, &bytes, &mut rng, ev, &format!("{:?}", front));
                         ev.count("maps:small-universe");
+                        // the same map as a version-1 / version-2 file (reference encoder, outputs pushed towards the root)
+                        if mask % 7 == shape as u64 {
+                            let ver = 1 + (mask / 7) % 2;
+                            let old = crate::refenc::encode_with(&kv, ver, 0, (mask % 3) as u8, true, &mut rng);
+                            check_map(&kv, &old, &mut rng, ev, &format!("reference-encoded version {}", ver));
+                            ev.count("maps:version-1-2-files");
+                        }
                     }
                     _ => ev.violate("build-error", "cannot build".into(), J::Null),
                 }
@@ -189,6 +196,10 @@ pub fn run(ctx: &Ctx) -> i32 {
             if let Ok(Ok(bytes)) = guard(|| build::build(Front::MapInsert, &kv)) {
                 ev.fps.insert(crate::rng::fnv_u64(0x16_10e9, i as u64));
                 check_map(&kv, &bytes, &mut r, ev, "long keys / wide nodes");
+                let ver = 1 + (i as u64 / 2) % 2;
+                let old = crate::refenc::encode_with(&kv, ver, 0, (i % 3) as u8, true, &mut r);
+                check_map(&kv, &old, &mut r, ev, &format!("reference-encoded version {} (long keys / wide nodes)", ver));
+                ev.count("maps:version-1-2-files");
                 ev.count(if i % 2 == 0 { "maps:long-keys" } else { "maps:wide-nodes" });
             }
         }
@@ -219,9 +230,9 @@ pub fn run(ctx: &Ctx) -> i32 {
         ev,
         Spec {
             level: "exploration",
-            rule: "one evaluation = one get_key(v) + get_key_into(v, prefixed buffer) query compared with the inverse of the model map; maps: ALL 32768 subsets of {a,b}^<=3 (with and without the empty key) x 6 strictly increasing value shapes (0,1,2..; offset+gaps; boundary palette; huge gaps up to ~u64::MAX; random gaps; starting at 1 so an empty key carries a non-zero value) [quick: shapes 5-6 on every 2nd subset], keys of 1..400 bytes, nodes of every fan-out class up to 256, corpora with value = i, 2i+1, i^2+5, random monotone maps over byte-level alphabets and several cache geometries; queries per map: every stored value, +-1, 0, 1, u64::MAX(-1), 20 random; non-trivial = every query; distinct = (map, value), distinct by construction",
+            rule: "one evaluation = one get_key(v) + get_key_into(v, prefixed buffer) query compared with the inverse of the model map; maps: ALL 32768 subsets of {a,b}^<=3 (with and without the empty key) x 6 strictly increasing value shapes (0,1,2..; offset+gaps; boundary palette; huge gaps up to ~u64::MAX; random gaps; starting at 1 so an empty key carries a non-zero value) [quick: shapes 5-6 on every 2nd subset], keys of 1..400 bytes, nodes of every fan-out class up to 256, the same maps as version-1 and version-2 files written by the reference encoder (outputs pushed towards the root as the builder does), corpora with value = i, 2i+1, i^2+5, random monotone maps over byte-level alphabets and several cache geometries; queries per map: every stored value, +-1, 0, 1, u64::MAX(-1), 20 random; non-trivial = every query; distinct = (map, value), distinct by construction",
             assumptions: vec!["maps whose values are not strictly increasing are outside the statement and skipped".into(), "the buffer content after get_key_into returned false is unspecified and not judged".into()],
-            floors: vec![("cov:maps-with-empty-key-nonzero-value", 1000), ("cov:maps-with-empty-key-zero-value", 1000), ("queries:present-value", 10_000), ("queries:absent-value", 10_000), ("maps:long-keys", 20), ("maps:wide-nodes", 20)],
+            floors: vec![("cov:maps-with-empty-key-nonzero-value", 1000), ("cov:maps-with-empty-key-zero-value", 1000), ("queries:present-value", 10_000), ("queries:absent-value", 10_000), ("maps:long-keys", 20), ("maps:wide-nodes", 20), ("maps:version-1-2-files", 1000)],
             exhaustive: Some(!ctx.quick()),
         },
     )
